@@ -49,7 +49,8 @@ def iter_programs(n, maxlen, desc, zip_=False, n2=None):
             go(prog + (["p%d:%d" % (v, v + 100)] if zip_ else ["p%d" % v]) + ["i"], ln, pos, True, changed, k + 1)
             if not changed:
                 go(prog + ["r"], ln - 1, pos if desc else pos - 1, False, True, k + 1)
-                go(prog + (["a%d:%d" % (v, v + 100)] if zip_ else ["a%d" % v]), ln + 1, pos if desc else pos + 1, True, True, k + 1)
+            # several adds after one yield are chained behind (descending: in front of) the yielded element
+            go(prog + (["a%d:%d" % (v, v + 100)] if zip_ else ["a%d" % v]), ln + 1, pos if desc else pos + 1, True, True, k + 1)
     go([], n, n if desc else 0, False, False, 0)
     return out
 
@@ -108,6 +109,15 @@ def generate(rng, tier, mode="default"):
     out.append([hdr()] + build("a", avals(3)) + ["a iter a5"] + ["END"])
     out.append([hdr()] + build("a", avals(3)) + ["a iter n r a5"] + ["END"])
     out.append([hdr()] + build("a", avals(3)) + ["a iter n a5 a6 r n n", "a diter n a5 a6 r n n"] + probe()[:4] + ["END"])
+    # several adds after one yield keep every node (order: last added first), also at the end of the list (tail)
+    for n in range(1, 4):
+        for ma, mb in (("conf", "conf"), ("libc", "conf")):
+            out.append([hdr(ma, mb)] + build("a", avals(n)) + ["a iter n a5 a6 n n", "a add_last 91", "a remove_last", "a remove_last"] + probe() + ["END"])
+            out.append([hdr(ma, mb)] + build("a", avals(n)) + ["a iter " + "n " * n + "a5 a6 a7 p8 n", "a add_last 91", "a remove_last", "a remove_last", "a reverse"] + probe() + ["END"])
+            out.append([hdr(ma, mb)] + build("a", avals(n)) + build("b", [20, 21]) + ["a zip n a5:6 a7:8 n", "a add_last 91", "b add_last 92", "b remove_last", "b remove_last"] + probe() + ["END"])
+            out.append([hdr(ma, mb)] + build("a", avals(n)) + build("b", [20]) + ["a zip n a5:6 a7:8 a1:2 n", "a add_last 91", "b add_last 92", "b remove_last", "b remove_last", "a remove_last"] + probe() + ["END"])
+            if BACKWARD:
+                out.append([hdr(ma, mb)] + build("a", avals(n)) + ["a diter n a5 a6 n n", "a add_first 91", "a remove_first", "a remove_first"] + probe() + ["END"])
     # ---------------------------------------------------------------- sorting: all sequences over 3 keys, tags make elements distinct
     sl = 5 if quick else 7
     for ln in range(sl + 1):
